@@ -144,9 +144,9 @@ theorem TasksFn.of_nodup {T : List Task} (hnd : (T.map (·.name)).Nodup) (hok : 
   exact ⟨hok, fun t ht t' ht' hn => _root_.inj_on_of_nodup_map_task hnd ht' ht hn⟩
 
 /-- a task read from a pod: its ref carries the task's name -/
-theorem podTask_refName {p : PodObj} {t : Task} (h : podTask p = some t) : t.ref.name = t.name := by
+theorem podTask_refName {now : Time} {p : PodObj} {t : Task} (h : podTask now p = some t) : t.ref.name = t.name := by
   unfold podTask Pod.task at h
-  cases hr : p.pod.taskRef with
+  cases hr : p.pod.taskRef now with
   | none => simp [hr] at h
   | some r =>
     simp only [hr, Option.some.injEq] at h
